@@ -105,6 +105,9 @@ class NpShim:
             if isinstance(v, (list, tuple)):
                 return any(has_sym(e) for e in v)
             return is_sym(v)
+        if isinstance(x, list) and x and all(isinstance(v, (SymReal, int, float)) and not isinstance(v, bool) for v in x) \
+                and any(isinstance(v, SymReal) for v in x) and not a and not k:
+            return SymArray1(x)
         if has_sym(x):
             return OpaqueArray("array")
         import numpy
@@ -188,6 +191,39 @@ class OpaqueArray:
 
     def __bool__(self):
         raise Unsupported("truth value of an opaque array")
+
+
+class SymArray1:
+    """1-D numpy array of reals holding symbolic values: exactly the operations of RtlReader._calc_noise"""
+
+    def __init__(self, vals):
+        self.v = list(vals)
+
+    def reshape(self, *shape):
+        if len(shape) == 1 and isinstance(shape[0], tuple):
+            shape = shape[0]
+        if len(shape) == 2 and shape[0] == -1 and isinstance(shape[1], int) and shape[1] > 0:
+            w = shape[1]
+            if len(self.v) % w:
+                raise ValueError("cannot reshape array of size %d into shape (-1,%d)" % (len(self.v), w))
+            return SymArray2([self.v[i:i + w] for i in range(0, len(self.v), w)])
+        raise Unsupported("reshape%r of a symbolic array" % (shape,))
+
+
+class SymArray2:
+    def __init__(self, rows):
+        self.rows = rows
+
+    def mean(self, axis=None):
+        if axis != 1:
+            raise Unsupported("mean(axis=%r) of a symbolic array" % (axis,))
+        out = []
+        for r in self.rows:
+            acc = None
+            for v in r:
+                acc = v if acc is None else acc + v
+            out.append(acc / len(r))
+        return out
 
 
 class _Linalg:
